@@ -28,7 +28,7 @@ def classify_build(out, feats):
         kind = ("redeclared" if "redeclared" in msg else "no-new-variables" if "no new variables" in msg else
                 "selector-on-shadowed-name" if re.search(r"\w+\.\w+ undefined", msg) else "type-mismatch" if "cannot use" in msg else
                 "invalid-operation" if "invalid operation" in msg else "undefined-name" if "undefined:" in msg else "declared-and-not-used" if "declared and not used" in msg else "other: " + msg[:60])
-        return "build/attribute-named-%s/%s" % (feats["risky"], kind)
+        return "build/attribute-named-%s/%s/%s" % (feats["risky"], area.split("/")[-1], kind)
     prefix = "build/nested-inline-object" if feats["nested_inline"] else "build"
     return "%s/%s: %s" % (prefix, re.sub(r"(front|svc|store|calc)", "S", area), msg)
 
